@@ -133,7 +133,7 @@ class Run(object):
             except Exception:
                 run.exc = True
                 run.errors.append(failure.Failure().getTraceback())
-            run.snaps.append(run.snapshot())
+            run.snaps.append(run.snapshot(attach=True))
         p.lineReceived = lineReceived
 
     # -- recording ---------------------------------------------------------
@@ -177,10 +177,12 @@ class Run(object):
             self.proto.queue_command("GETINFO r%d" % serial)
         return None
 
-    def snapshot(self):
-        for d, serial in self.unattached:
-            d.addCallbacks(self._ok, self._err, callbackArgs=(serial,), errbackArgs=(serial,))
-        self.unattached = []
+    def snapshot(self, attach=False):
+        if attach:
+            # (after a line has been processed: a reply that this line completed was resolved with nobody attached yet)
+            for d, serial in self.unattached:
+                d.addCallbacks(self._ok, self._err, callbackArgs=(serial,), errbackArgs=(serial,))
+            self.unattached = []
         data = self.tr.value()
         self.tr.clear()
         wrote = []
